@@ -2,8 +2,11 @@ package nc
 
 import (
 	"fmt"
+	"go/constant"
 	"go/token"
 	"go/types"
+	"reflect"
+	"strings"
 
 	"golang.org/x/tools/go/ssa"
 )
@@ -239,6 +242,89 @@ func c07RelSet(op token.Token, outcome bool) (int, bool) {
 	return set, true
 }
 
+// c07Fact states a branch outcome the way canon.go's CmpFact does - as a comparison `x rel y` that HOLDS, with
+// `!` removed (a refused `!c` is c taken) and a constant on the left moved to the right (`3 == s` -> `s == 3`,
+// `0 > i` -> `i < 0`) - but gives the relation as the set of orderings the outcome leaves possible between x and y
+// (c07Rel* bits) instead of one operator. That keeps a refused ordering test of a floating-point counter readable
+// (`numMatching > 0` refused: "not greater"; CmpFact gives up there because of NaN, which a sum of 1.0s never is),
+// and lets several outcomes on one pair be intersected. Every reader of path conditions in C07 goes through this
+// function, so the spelling of a test (operand order, complement under `!`, if/else exchanged) does not matter.
+func c07Fact(cond ssa.Value, outcome bool) (x, y ssa.Value, set int, ok bool) {
+	for {
+		if u, isU := cond.(*ssa.UnOp); isU && u.Op == token.NOT {
+			cond, outcome = u.X, !outcome
+			continue
+		}
+		break
+	}
+	b, isB := cond.(*ssa.BinOp)
+	if !isB {
+		return nil, nil, 0, false
+	}
+	set, ok = c07RelSet(b.Op, outcome)
+	if !ok {
+		return nil, nil, 0, false
+	}
+	x, y = b.X, b.Y
+	if _, lc := c07Int(x); lc {
+		if _, rc := c07Int(y); !rc {
+			x, y, set = y, x, c07Mirror(set)
+		}
+	}
+	return x, y, set, true
+}
+
+// c07FactAbout: the outcome as a relation `v rel other` for the operand v picked by is (either side of the test).
+func c07FactAbout(cond ssa.Value, outcome bool, is func(ssa.Value) bool) (other ssa.Value, set int, ok bool) {
+	x, y, set, ok := c07Fact(cond, outcome)
+	if !ok {
+		return nil, 0, false
+	}
+	switch {
+	case is(x):
+		return y, set, true
+	case is(y):
+		return x, c07Mirror(set), true
+	}
+	return nil, 0, false
+}
+
+// c07StateOnPath: the value of the excess/disjoint switch on this path, decided from every test of the switch
+// against a constant the path takes or refuses, whatever its spelling (`s == 3`, `3 == s`, `!(s != 3)`, `s >= 3`,
+// ...): of the four states 0..3 (start state 0 and every next state are proved to be one of them) exactly one
+// must remain possible. -1 when the outcomes leave more than one state (or none).
+func c07StateOnPath(conds []Guard, sw ssa.Value) int64 {
+	possible := map[int64]bool{0: true, 1: true, 2: true, 3: true}
+	for _, g := range conds {
+		o, set, ok := c07FactAbout(g.Cond, g.True, func(v ssa.Value) bool { return v == sw })
+		if !ok {
+			continue
+		}
+		k, isK := c07Int(o)
+		if !isK {
+			continue
+		}
+		for s := range possible {
+			rel := c07RelEQ
+			if s < k {
+				rel = c07RelLT
+			} else if s > k {
+				rel = c07RelGT
+			}
+			if set&rel == 0 {
+				delete(possible, s)
+			}
+		}
+	}
+	if len(possible) != 1 {
+		return -1
+	}
+	for s := range possible {
+		return s
+	}
+	return -1
+}
+
 func c07Mirror(set int) int {
 	m := set & c07RelEQ
 	if set&c07RelLT != 0 {
@@ -258,15 +344,11 @@ func c07InnovRel(tm *Termer, conds []Guard) int {
 	const A, B = "recv.Genes[*].InnovationNum", "p1.Genes[*].InnovationNum"
 	mask := c07RelLT | c07RelEQ | c07RelGT
 	for _, g := range conds {
-		b, ok := g.Cond.(*ssa.BinOp)
+		bx, by, set, ok := c07Fact(g.Cond, g.True)
 		if !ok {
 			continue
 		}
-		set, ok := c07RelSet(b.Op, g.True)
-		if !ok {
-			continue
-		}
-		x, y := tm.Of(b.X).String(), tm.Of(b.Y).String()
+		x, y := tm.Of(bx).String(), tm.Of(by).String()
 		switch {
 		case x == A && y == B:
 		case x == B && y == A:
@@ -296,21 +378,11 @@ func c07AbsByHand(tm *Termer, ip *IterPath, a ssa.Value) bool {
 	signOf := func(d ssa.Value) int { // relations of d to 0 left possible by the path
 		mask := c07RelLT | c07RelEQ | c07RelGT
 		for _, g := range ip.Conds {
-			b, ok := g.Cond.(*ssa.BinOp)
+			o, set, ok := c07FactAbout(g.Cond, g.True, func(v ssa.Value) bool { return v == d })
 			if !ok {
 				continue
 			}
-			set, ok := c07RelSet(b.Op, g.True)
-			if !ok {
-				continue
-			}
-			kx, zx := constInt(b.X)
-			ky, zy := constInt(b.Y)
-			switch {
-			case b.X == d && zy && ky == 0:
-			case b.Y == d && zx && kx == 0:
-				set = c07Mirror(set)
-			default:
+			if k, isK := constInt(o); !isK || k != 0 {
 				continue
 			}
 			mask &= set
@@ -330,39 +402,24 @@ func c07AbsByHand(tm *Termer, ip *IterPath, a ssa.Value) bool {
 // c07NonZeroBy: does the branch outcome (cmp, outcome) say that den is positive?
 // Accepts den > 0, 0 < den, den >= 1, 1 <= den and the refused complements
 // (!(den <= 0), !(den < 1), ...); den may be compared through a numeric conversion.
-func c07NonZeroBy(cmp *ssa.BinOp, outcome bool, den ssa.Value) bool {
-	set, ok := c07RelSet(cmp.Op, outcome)
-	if !ok {
-		return false
-	}
+func c07NonZeroBy(cmp ssa.Value, outcome bool, den ssa.Value) bool {
 	strip := func(v ssa.Value) ssa.Value {
 		if cv, ok := v.(*ssa.Convert); ok {
 			return cv.X
 		}
 		return v
 	}
-	x, y := strip(cmp.X), strip(cmp.Y)
-	var k int64
-	switch {
-	case x == den:
-		c, isK := constInt(y)
-		if !isK {
-			return false
-		}
-		k = c
-	case y == den:
-		c, isK := constInt(x)
-		if !isK {
-			return false
-		}
-		k = c
-		set = c07Mirror(set)
-	default:
+	o, set, ok := c07FactAbout(cmp, outcome, func(v ssa.Value) bool { return v == den || strip(v) == den })
+	if !ok {
+		return false
+	}
+	k, isK := constInt(o)
+	if !isK {
 		return false
 	}
 	switch k {
 	case 0:
-		return set == c07RelGT // den > 0
+		return set == c07RelGT || set == c07RelLT|c07RelGT // den > 0, den != 0
 	case 1:
 		return set&c07RelLT == 0 // den >= 1
 	}
@@ -815,7 +872,7 @@ func (r *Run) c07CheckTails(fn *ssa.Function, tm *Termer, kind string, main *Loo
 				nBack++
 				inRange := false
 				for _, g := range ip.Conds {
-					if exhaustedBy(tm, Guard{g.Cond, !g.True, g.At}, self, listTerm[k]) {
+					if inRangeBy(tm, g, self, listTerm[k]) {
 						inRange = true
 					}
 				}
@@ -983,7 +1040,7 @@ func c07ForwardInvariant(tm *Termer, l *Loop, paths []*IterPath, c *ssa.Phi, lis
 		}
 		inRange := false
 		for _, g := range ip.Conds {
-			if exhaustedBy(tm, Guard{g.Cond, !g.True, g.At}, self, listTerm) {
+			if inRangeBy(tm, g, self, listTerm) {
 				inRange = true
 			}
 		}
@@ -1068,7 +1125,7 @@ func c07ForwardRemainderOnAllPaths(fn *ssa.Function, tm *Termer, ip *IterPath, e
 				if exhaustedBy(tm, g, self, listTerm[k]) {
 					ex[k] = true
 				}
-				if exhaustedBy(tm, Guard{g.Cond, !g.True, g.At}, self, listTerm[k]) {
+				if inRangeBy(tm, g, self, listTerm[k]) {
 					in[k] = true
 				}
 			}
@@ -1291,43 +1348,23 @@ func c07Sign(fp *IterPath, v ssa.Value) int {
 		return x == v || fp.ResolveAt(x) == v
 	}
 	for _, g := range fp.Conds {
-		b, ok := g.Cond.(*ssa.BinOp)
+		o, set, ok := c07FactAbout(g.Cond, g.True, same)
 		if !ok {
 			continue
 		}
-		set, ok := c07RelSet(b.Op, g.True)
-		if !ok {
-			continue
-		}
-		kx, zx := constInt(b.X)
-		ky, zy := constInt(b.Y)
+		k, isK := constInt(o)
 		switch {
-		case zy && same(b.X):
-			if ky == 1 { // v < 1, v >= 1
-				if set == c07RelLT {
-					set = c07RelLT | c07RelEQ
-				} else if set == c07RelGT|c07RelEQ {
-					set = c07RelGT
-				} else {
-					continue
-				}
-			} else if ky != 0 {
+		case !isK:
+			continue
+		case k == 1: // v < 1, v >= 1 (v is a count: integral)
+			if set == c07RelLT {
+				set = c07RelLT | c07RelEQ
+			} else if set == c07RelGT|c07RelEQ {
+				set = c07RelGT
+			} else {
 				continue
 			}
-		case zx && same(b.Y):
-			set = c07Mirror(set)
-			if kx == 1 {
-				if set == c07RelLT {
-					set = c07RelLT | c07RelEQ
-				} else if set == c07RelGT|c07RelEQ {
-					set = c07RelGT
-				} else {
-					continue
-				}
-			} else if kx != 0 {
-				continue
-			}
-		default:
+		case k != 0:
 			continue
 		}
 		mask &= set
@@ -1499,11 +1536,11 @@ func (r *Run) c07CheckResult(w *c07Walk, tm *Termer, paths []*IterPath) {
 			// the mean difference may be left out only where no genes matched
 			refused := false
 			for _, g := range fp.Conds {
-				b, isB := g.Cond.(*ssa.BinOp)
+				bx, by, _, isB := c07Fact(g.Cond, g.True)
 				if !isB {
 					continue
 				}
-				for _, o := range []ssa.Value{b.X, b.Y} {
+				for _, o := range []ssa.Value{bx, by} {
 					if _, isC := o.(*ssa.Const); isC {
 						continue
 					}
@@ -1631,25 +1668,13 @@ func (r *Run) c07CheckEarlyReturns(w *c07Walk, tm *Termer) {
 			fp := &IterPath{Blocks: c.Blocks, End: "partial", Conds: c.Conds}
 			empty := map[int]bool{}
 			for _, g := range fp.Conds {
-				cmp, isB := g.Cond.(*ssa.BinOp)
-				if !isB {
-					continue
-				}
-				set, okS := c07RelSet(cmp.Op, g.True)
-				if !okS {
-					continue
-				}
 				for k := 1; k <= 2; k++ {
-					var kc int64
-					var isK bool
-					s := set
-					switch {
-					case tm.Of(cmp.X).String() == lenTerm[k]:
-						kc, isK = constInt(cmp.Y)
-					case tm.Of(cmp.Y).String() == lenTerm[k]:
-						kc, isK = constInt(cmp.X)
-						s = c07Mirror(set)
+					k := k
+					o, s, okS := c07FactAbout(g.Cond, g.True, func(v ssa.Value) bool { return tm.Of(v).String() == lenTerm[k] })
+					if !okS {
+						continue
 					}
+					kc, isK := constInt(o)
 					if !isK {
 						continue
 					}
@@ -1713,5 +1738,356 @@ func (r *Run) c07CheckEarlyReturns(w *c07Walk, tm *Termer) {
 			continue // not reachable without passing the walk
 		}
 		r.Check(msg == "", construct, pos, "a return in front of the walk happens only for an empty gene list and yields ExcessCoeff times the genes of the other list", "compat walk bypassed: "+msg)
+	}
+}
+
+// ---------------------------------------------------------------------------
+// Which genes an iteration looks at.
+
+// c07GeneLoad: v (a *Gene) is the element list_k[idx] loaded from one of the two gene lists.
+func c07GeneLoad(tm *Termer, v ssa.Value) (int, *ssa.IndexAddr) {
+	u, ok := v.(*ssa.UnOp)
+	if !ok || u.Op != token.MUL {
+		return 0, nil
+	}
+	ia, ok := u.X.(*ssa.IndexAddr)
+	if !ok {
+		return 0, nil
+	}
+	switch tm.Of(ia.X).String() {
+	case "recv.Genes":
+		return 1, ia
+	case "p1.Genes":
+		return 2, ia
+	}
+	return 0, nil
+}
+
+// c07CheckGenes: the per-step rules speak about "the current gene of list k" through origin terms
+// (`recv.Genes[*].InnovationNum`), which do not say WHICH element is read. This obligation ties the genes to the
+// cursors. On every feasible path of one iteration of the merge loop
+//
+//   - every read of a gene field (InnovationNum, MutationNum) reads the gene list_k[c_k], c_k being the value the
+//     cursor of list k has at the start of the iteration: either the gene is loaded in this iteration at an index
+//     that is, on this path, the cursor's start value, or it is a loop-carried gene variable G_k for which
+//     G_k == list_k[c_k] holds at the loop head (on entry it is loaded at the cursor's start value, and every way
+//     back to the head reloads it at the cursor's next value). Otherwise the walk compares or accumulates a gene
+//     other than the one it then counts or steps over (a stale gene, a neighbour, a gene of the other list's index);
+//   - a cursor whose gene is read, or which is stepped (its gene counted or matched), is inside its list: the path
+//     takes a test that says so about the cursor's start value, or "inside" holds at the loop head (it holds on
+//     entry and every way back to the head has tested the cursor's next value). Otherwise a gene that does not exist
+//     is counted (one unit too many, or no termination) or read (index out of range).
+func (r *Run) c07CheckGenes(w *c07Walk, tm *Termer, paths []*IterPath) {
+	p := r.P
+	fn := w.Fn
+	construct := fn.Name() + ".genes"
+	pos := p.Pos(fn.Pos())
+	cur := map[int]*ssa.Phi{1: w.C1, 2: w.C2}
+	listTerm := map[int]string{1: "recv.Genes", 2: "p1.Genes"}
+	geneT := p.Named(PkgG, "Gene")
+	var reads []*ssa.FieldAddr
+	Instrs(fn, func(b *ssa.BasicBlock, _ int, in ssa.Instruction) {
+		if fa, ok := in.(*ssa.FieldAddr); ok && w.Main.Blocks[b] && ownerOf(fa.X.Type()) == geneT {
+			reads = append(reads, fa)
+		}
+	})
+	if len(reads) == 0 {
+		r.Undecided(construct, pos, "the merge loop reads no gene field: cannot tell which genes it compares")
+		return
+	}
+	isHeaderPhi := func(v ssa.Value) *ssa.Phi {
+		ph, ok := v.(*ssa.Phi)
+		if ok && ph.Block() == w.Main.Header {
+			return ph
+		}
+		return nil
+	}
+	var feasible []*IterPath
+	for _, ip := range paths {
+		if !relInfeasible(tm, ip.Conds) {
+			feasible = append(feasible, ip)
+		}
+	}
+	sameIndex := func(a, b ssa.Value) bool {
+		a, b = a07Strip(a), a07Strip(b)
+		if a == b {
+			return true
+		}
+		if ka, okA := c07Int(a); okA {
+			kb, okB := c07Int(b)
+			return okB && ka == kb
+		}
+		// the same pure expression over the list lengths written twice (len(g.Genes)-1)
+		sa, sb := CanonTerm(tm.Of(a)), CanonTerm(tm.Of(b))
+		return sa == sb && !strings.Contains(sa, "φ") && !strings.Contains(sa, "[*]") && !strings.Contains(sa, "loop") && strings.Contains(sa, "len(")
+	}
+	// G == list_k[c_k] at the loop head?  (0: no)
+	carried := map[*ssa.Phi]int{}
+	carriedGene := func(G *ssa.Phi) int {
+		if k, done := carried[G]; done {
+			return k
+		}
+		carried[G] = 0
+		k := 0
+		for i, pred := range w.Main.Header.Preds {
+			if w.Main.Blocks[pred] {
+				continue
+			}
+			kk, ia := c07GeneLoad(tm, a07Strip(G.Edges[i]))
+			if kk == 0 || (k != 0 && kk != k) || !sameIndex(ia.Index, cur[kk].Edges[i]) {
+				return 0
+			}
+			k = kk
+		}
+		if k == 0 {
+			return 0
+		}
+		for _, ip := range feasible {
+			if ip.End != "back" {
+				continue
+			}
+			kk, ia := c07GeneLoad(tm, ip.NextValue(G))
+			if kk != k || !w.Main.Blocks[ia.Block()] || !ip.OnPath(ia) || ip.ResolveAt(ia.Index) != ip.NextValue(cur[k]) {
+				return 0
+			}
+		}
+		carried[G] = k
+		return k
+	}
+	// "inside its list" at the loop head?
+	headInv := map[int]bool{}
+	for k := 1; k <= 2; k++ {
+		ok := true
+		nEntry := 0
+		lenT := "len(" + listTerm[k] + ")"
+		for i, pred := range w.Main.Header.Preds {
+			if w.Main.Blocks[pred] {
+				continue
+			}
+			nEntry++
+			e := a07Strip(cur[k].Edges[i])
+			facts := append(append([]Guard{}, Guards(pred)...), condsAt(pred, w.Main.Header)...)
+			in := false
+			for _, g := range facts {
+				if c07InRangeFact(tm, g, func(v ssa.Value) bool { return v == e }, listTerm[k]) {
+					in = true
+				}
+				// the last (len-1) or first (0) element of a list known not to be empty
+				o, set, okF := c07FactAbout(g.Cond, g.True, func(v ssa.Value) bool { return tm.Of(v).String() == lenT })
+				if !okF {
+					continue
+				}
+				kc, isK := c07Int(o)
+				nonEmpty := isK && ((kc == 0 && set&c07RelEQ == 0) || (kc == 1 && set&c07RelLT == 0))
+				if !nonEmpty {
+					continue
+				}
+				if z, isZ := c07Int(e); isZ && z == 0 {
+					in = true
+				}
+				if sb, isSub := e.(*ssa.BinOp); isSub && sb.Op == token.SUB && tm.Of(sb.X).String() == lenT {
+					if one, isOne := c07Int(sb.Y); isOne && one == 1 {
+						in = true
+					}
+				}
+			}
+			if !in {
+				ok = false
+			}
+		}
+		for _, ip := range feasible {
+			if ip.End != "back" || !ok {
+				continue
+			}
+			next := ip.NextValue(cur[k])
+			in := false
+			for _, g := range ip.Conds {
+				if c07InRangeFact(tm, g, func(v ssa.Value) bool { return next != nil && ip.ResolveAt(v) == next }, listTerm[k]) {
+					in = true
+				}
+			}
+			if !in {
+				ok = false
+			}
+		}
+		headInv[k] = ok && nEntry > 0
+	}
+	nReads := 0
+	for _, ip := range feasible {
+		used := map[int]bool{}
+		fail := func(msg string) {
+			r.Bad(construct, p.Pos(firstPos(ip)), msg, ip.Describe(p)...)
+		}
+		for _, fa := range reads {
+			if !ip.OnPath(fa) {
+				continue
+			}
+			nReads++
+			v := ip.ResolveAt(fa.X)
+			if k, ia := c07GeneLoad(tm, v); k != 0 {
+				if !w.Main.Blocks[ia.Block()] || !ip.OnPath(ia) {
+					fail(fmt.Sprintf("an iteration reads %s of a gene of list %d that was loaded in front of the loop and is not reloaded: every iteration looks at the same gene, not at the one under the cursor", fieldOf(fa.X.Type(), fa.Field).Name(), k))
+					return
+				}
+				if ip.ResolveAt(ia.Index) != ssa.Value(cur[k]) {
+					fail(fmt.Sprintf("an iteration reads %s of list %d at index %s, which is not the position of that list's cursor at the start of the iteration: the gene compared is not the gene that is then matched, counted or stepped over", fieldOf(fa.X.Type(), fa.Field).Name(), k, tm.Of(ia.Index).String()))
+					return
+				}
+				used[k] = true
+				continue
+			}
+			if G := isHeaderPhi(v); G != nil {
+				if k := carriedGene(G); k != 0 {
+					used[k] = true
+					continue
+				}
+				fail("the loop-carried gene variable " + G.Comment + " is not, at the loop head, the gene under its list's cursor (it must be loaded at the cursor's start position in front of the loop and reloaded at the cursor's new position on every way back to the loop head)")
+				return
+			}
+			fail("an iteration reads " + fieldOf(fa.X.Type(), fa.Field).Name() + " of " + tm.Of(fa.X).String() + ", which is not an element of one of the two gene lists at its cursor")
+			return
+		}
+		if ip.End == "back" {
+			for k := 1; k <= 2; k++ {
+				if n, ok := c07SignedStep(ip, cur[k]); !ok || n != 0 {
+					used[k] = true
+				}
+			}
+		}
+		for k := 1; k <= 2; k++ {
+			if !used[k] || headInv[k] {
+				continue
+			}
+			in := false
+			for _, g := range ip.Conds {
+				if c07InRangeFact(tm, g, func(v ssa.Value) bool { return ip.ResolveAt(v) == ssa.Value(cur[k]) }, listTerm[k]) {
+					in = true
+				}
+			}
+			if !in {
+				fail(fmt.Sprintf("an iteration reads or counts the gene under the cursor of list %d although nothing on this path says the cursor is still inside the list (and this does not hold at every start of an iteration): a gene that does not exist is counted or read", k))
+				return
+			}
+		}
+	}
+	if nReads == 0 {
+		r.Undecided(construct, pos, "no feasible path of the merge loop reads a gene field")
+		return
+	}
+	r.OK(construct, pos, fmt.Sprintf("on %d path(s) of one iteration every gene field read is read from list_k[cursor_k] and a cursor whose gene is read or counted is inside its list", len(feasible)))
+}
+
+// ---------------------------------------------------------------------------
+// C07.6, keyed loaders: the configured name of each coefficient.
+
+// c07CoefficientKeys: the property names the coefficients by their configuration keys (excess_coeff, disjoint_coeff,
+// mutdiff_coeff - the yaml names of the three Options fields). A loader that fills an Options object parameter by
+// parameter, storing a field under a test `name == "<key>"` (a switch over the parameter name), must store each
+// coefficient under its own key and nothing else under that key: otherwise the value configured as, say,
+// disjoint_coeff never reaches Options.DisjointCoeff (it is dropped, or lands in another field) and the distance is
+// computed with a coefficient that is not the configured one. Judged for every function that stores a coefficient
+// under such a key test, or stores anything under a coefficient's key; loaders that do not work by key tests
+// (yaml.Unmarshal with the field tags, tables of setters) are not concerned.
+func (r *Run) c07CoefficientKeys(coeff map[*types.Var]bool) {
+	p := r.P
+	optsT := p.Named(PkgT, "Options")
+	st := optsT.Underlying().(*types.Struct)
+	tagOf := map[*types.Var]string{}
+	isTag := map[string]*types.Var{}
+	var order []*types.Var
+	for i := 0; i < st.NumFields(); i++ {
+		f := st.Field(i)
+		if !coeff[f] {
+			continue
+		}
+		t := reflect.StructTag(st.Tag(i)).Get("yaml")
+		if j := strings.Index(t, ","); j >= 0 {
+			t = t[:j]
+		}
+		if t == "" {
+			t = strings.ToLower(f.Name()) // yaml's default key
+		}
+		tagOf[f] = t
+		isTag[t] = f
+		order = append(order, f)
+	}
+	strConst := func(v ssa.Value) (string, bool) {
+		c, ok := v.(*ssa.Const)
+		if !ok || c.Value == nil || c.Value.Kind() != constant.String {
+			return "", false
+		}
+		return constant.StringVal(c.Value), true
+	}
+	// the keys the block is reached under: outcomes `s == "key"` (in any spelling) that dominate it
+	keysAt := func(b *ssa.BasicBlock) []string {
+		var out []string
+		for _, g := range Guards(b) {
+			x, y, set, ok := c07Fact(g.Cond, g.True)
+			if !ok || set != c07RelEQ {
+				continue
+			}
+			kx, isX := strConst(x)
+			ky, isY := strConst(y)
+			switch {
+			case isY && !isX:
+				out = append(out, ky)
+			case isX && !isY:
+				out = append(out, kx)
+			}
+		}
+		return out
+	}
+	type rec struct {
+		f   *types.Var
+		key string
+		at  *ssa.Store
+	}
+	for _, fn := range p.SrcFuncs() {
+		var recs []rec
+		concerned := false
+		Instrs(fn, func(b *ssa.BasicBlock, _ int, in ssa.Instruction) {
+			s, ok := in.(*ssa.Store)
+			if !ok {
+				return
+			}
+			f := StoredField(s)
+			if f == nil || ownerOf(s.Addr.(*ssa.FieldAddr).X.Type()) != optsT {
+				return
+			}
+			for _, k := range keysAt(b) {
+				recs = append(recs, rec{f, k, s})
+				if coeff[f] || isTag[k] != nil {
+					concerned = true
+				}
+			}
+		})
+		if !concerned {
+			continue
+		}
+		for _, F := range order {
+			construct := "coefficients.key:" + fn.Name() + "." + F.Name()
+			filled := false
+			msg := ""
+			pos := p.Pos(fn.Pos())
+			for _, rc := range recs {
+				switch {
+				case rc.f == F && rc.key == tagOf[F]:
+					filled = true
+					if msg == "" {
+						pos = p.Pos(rc.at.Pos())
+					}
+				case rc.f == F:
+					msg = fmt.Sprintf("%s stores %s under the parameter name %q, its configured name is %q: the coefficient the walks read is the value of another parameter", FuncName(fn), F.Name(), rc.key, tagOf[F])
+					pos = p.Pos(rc.at.Pos())
+				case rc.key == tagOf[F]:
+					msg = fmt.Sprintf("%s stores the parameter %q into %s instead of %s", FuncName(fn), rc.key, rc.f.Name(), F.Name())
+					pos = p.Pos(rc.at.Pos())
+				}
+			}
+			if msg == "" && !filled {
+				msg = fmt.Sprintf("%s fills Options fields parameter by parameter but never stores %s under its configured name %q: the configured coefficient is dropped and the walks read 0", FuncName(fn), F.Name(), tagOf[F])
+			}
+			r.Check(msg == "", construct, pos, fmt.Sprintf("%s is filled under its configured name %q and nothing else is", F.Name(), tagOf[F]), msg)
+		}
 	}
 }
